@@ -32,6 +32,7 @@ type State struct {
 	extra     map[string]Val // ghost per-loop values ($i, $visited, $yielded)
 	compEpoch map[string]int
 	heapDirty bool // some unknown call havocked the whole heap
+	pureInst  map[string]bool
 }
 
 func (st *State) clone() *State {
@@ -45,6 +46,10 @@ func (st *State) clone() *State {
 		extra:     make(map[string]Val, len(st.extra)),
 		compEpoch: make(map[string]int, len(st.compEpoch)),
 		heapDirty: st.heapDirty,
+		pureInst:  make(map[string]bool, len(st.pureInst)),
+	}
+	for k, v := range st.pureInst {
+		n.pureInst[k] = v
 	}
 	for k, v := range st.compEpoch {
 		n.compEpoch[k] = v
@@ -156,6 +161,7 @@ type Exec struct {
 	usedAxioms    map[string]bool
 	intrinsics    map[string]bool
 	cloVerified   map[*ast.FuncLit]bool
+	pureDepth     int
 	reassigned    map[types.Object]bool
 }
 
